@@ -385,9 +385,9 @@ func runQuotaAdv(ctx *core.RunCtx) {
 		runtime.GC()
 		runtime.ReadMemStats(&ms0)
 	}
-	start := time.Now()
+	start, cpu0 := time.Now(), procCPU()
 	r := execLimited(src, rt.RuntimeResources{Cpu: cpuL, Memory: memL}, core.ReplayTape(nil), false, nil)
-	wall := time.Since(start)
+	wall, cpuT := time.Since(start), procCPU()-cpu0
 	runtime.ReadMemStats(&ms1)
 	alloc := ms1.TotalAlloc - ms0.TotalAlloc
 	ctx.Ticks += r.used.Cpu
@@ -437,9 +437,8 @@ func runQuotaAdv(ctx *core.RunCtx) {
 	// K6 / M3: real work and real allocation bounded.  Thresholds are far above
 	// what the unchanged tree needs (it stays under 100 ms and 40 MB on every
 	// template) and scale with the limits.
-	maxWall := 10 * time.Second
-	if wall > maxWall {
-		ctx.Fail(prop, prop+".K6", "slow:"+sig, "took %v of wall time under cpu limit %d; %s", wall, cpuL, where)
+	if maxCPU := 10 * time.Second; cpuT > maxCPU {
+		ctx.Fail(prop, prop+".K6", "slow:"+sig, "took %v of processor time (%v of wall time) under cpu limit %d; %s", cpuT, wall, cpuL, where)
 		return
 	}
 	// cumulative allocation may legitimately grow with the CPU budget (garbage churn of a loop that is
